@@ -152,10 +152,15 @@ var gogoWKTfm = strings.ReplaceAll(gogoWKT, "github.com/gogo/protobuf/types", "g
 // FMParam is the parameter string for protoc-gen-fastmarshal.
 func (v Variant) FMParam() string {
 	ps := []string{"paths=source_relative"}
+	// the option value is case-insensitive (run.go lower-cases it): per-message variants spell it in capitals
+	api1, api2 := "apiversion=v1", "apiversion=v2"
+	if v.PerMessage {
+		api1, api2 = "apiversion=V1", "apiversion=V2"
+	}
 	if v.Runtime == "gogo" {
-		ps = append(ps, "apiversion=v1", "specialname=Size", gogoWKTfm)
+		ps = append(ps, api1, "specialname=Size", gogoWKTfm)
 	} else {
-		ps = append(ps, "apiversion=v2")
+		ps = append(ps, api2)
 	}
 	if v.PerMessage {
 		ps = append(ps, "filepermessage=true")
